@@ -109,6 +109,8 @@ def extra_templates():
         [S('?a'), S('i?b'), S('c')], [S('a'), S('b'), ('b', True)], [S('>1'), S('a'), S('ib')], [S(''), S('a'), S('*')],
         [S('ab'), S('b'), S('*b')], [S('a'), T.M((K('g'), S('b'))), S('c*')],
         [S('a*'), S('iA*')], [S('ab'), S('iAB'), S('?ab')], [S('*a'), S('i*A'), S('*a*')], [S('ia'), S('a'), S('iA')],
+        # one text under several relations inside one batch (the relation belongs to the member, not to the text)
+        [S('a*'), S('b*'), S('*b'), S('*c')], [S('a*'), S('*a'), S('b')], [S('ia*'), S('i*a'), S('ib')],
     ]
     for i, l in enumerate(mixed):
         out.append(('c17-list', 'mixed%d' % i, {'idents': {'A': M((K('f'), L(*l)))}, 'cond': ('id', 'A')}))
@@ -119,6 +121,7 @@ def extra_templates():
     out.append(('c17-map', 'int(f),g,h', {'idents': {'A': M((K('f', 'int'), ('i', 1)), (K('g'), S('a*')), (K('h'), S('ib')))}, 'cond': ('id', 'A')}))
     out.append(('c17-map', 'f,g,h,n', {'idents': {'A': M((K('f'), S('a')), (K('g'), ('i', 1)), (K('h'), S('*b')), (K('n'), M((K('f'), S('c')))))}, 'cond': ('id', 'A')}))
     out.append(('c17-seq', '4 entries', {'idents': {'A': ('seq', [M((K('f'), S('a'))), M((K('f'), S('ib'))), M((K('g'), S('?c'))), M((K('g'), ('i', 1)))])}, 'cond': ('id', 'A')}))
+    out.append(('c17-seq', 'f or str(f)', {'idents': {'A': ('seq', [M((K('f'), S('a'))), M((K('f', 'str'), ('i', 1)))])}, 'cond': ('id', 'A')}))
     A, B, C, D = M((K('f'), S('a*'))), M((K('f'), S('*b'))), M((K('g'), ('i', 1))), M((K('h'), S('ic')))
     ids = {'A': A, 'B': B, 'C': C, 'D': D}
     out.append(('c17-cond', 'A or B or C or D', {'idents': ids, 'cond': ('or', ('or', ('or', ('id', 'A'), ('id', 'B')), ('id', 'C')), ('id', 'D'))}))
@@ -180,6 +183,24 @@ def run_unit(ck, unit):
             p = ck.write_replay(safe(label), {'rule': yaml, 'permuted': y, 'native': r})
             ck.violations.append((p, '%s: the permuted rule does not load (%s)' % (label, r.get('err') or r.get('panic'))))
             continue
+        # engines that are not what their description says: the symbolic model of the tree is not valid there, the
+        # probe documents are compared natively instead
+        ck.handles_probes = True
+        unconfirmed = set()
+        hit = False
+        for docj, what in probe_docs(base) + probe_docs(r):
+            ck.obligations += 1
+            n0 = br.call(cmd='eval', yaml=yaml, opts=None, doc=docj, mode='flat')
+            n1 = br.call(cmd='eval', yaml=y, opts=None, doc=docj, mode='flat')
+            if 'verdict' in n0 and 'verdict' in n1 and n0['verdict'] != n1['verdict']:
+                if not hit:
+                    path = ck.write_replay(safe(label) + '_engine', {'rule': yaml, 'permuted': y, 'doc': docj, 'what': what, 'native_original': n0, 'native_permuted': n1})
+                    ck.violations.append((path, '%s: original=%s permuted=%s on %s (%s)' % (label, n0['verdict'], n1['verdict'], json.dumps(docj), what)))
+                hit = True
+            else:
+                unconfirmed.add('%s: %s (the model of this tree is not valid)' % (label, what))
+        if unconfirmed and not hit:
+            ck.inconclusive.append(sorted(unconfirmed)[0])
         txt = tree_text(r)
         if txt in seen:
             ck.obligations += 1
